@@ -73,7 +73,10 @@ func c18Expect(table map[string][]model.PermEntry, client string, pop []c18Acct,
 }
 
 func c18Paths() []string {
-	return []string{"W1", "W1/", "W1/acc", "W1/a.*", "W1/acc|b", "W1/^acc$", "W2/acc", "D1", "D1/dacc", "Unknown", "", "/x", "W1/(", "w1", "W2/.*c", "W1/A.c"}
+	return []string{"W1", "W1/", "W1/acc", "W1/a.*", "W1/acc|b", "W1/^acc$", "W2/acc", "D1", "D1/dacc", "Unknown", "", "/x", "W1/(", "w1", "W2/.*c", "W1/A.c",
+		// a shorter alternative before a longer one, and a lazy quantifier: a whole-name match exists although the match a
+		// regexp engine prefers is a proper prefix of the name
+		"W1/(acc|accx)", "W1/acc.*?"}
 }
 
 func c18Tables() []map[string][]model.PermEntry {
@@ -259,7 +262,7 @@ func C18(tier string) int {
 	run.Coverage = map[string]any{
 		"evaluations":         cells,
 		"distinct_nontrivial": len(classes),
-		"rule":                "population: 2 plain wallets and 1 distributed wallet with regex-significant account names; 7 permission tables incl. per-account, deny-first and case-differing entries; every path list of length <= 2 (<= 3 in thorough, one third of the triples) over 16 path forms (wallet only, trailing slash, literal, regex, alternation, anchored, unknown, empty, leading slash, invalid regex, wrong case); 3 clients; before creating, after creating, and after creating a second time a plain account through generation and a distributed account through import+AddAccount (the DKG commit path), every listing repeated in each of the three phases; through the real gRPC lister handler; oracle: returned set is a subset of (requested wallets and permitted), a superset of (permitted and whole-matching a requested path), names and keys equal the store's; distinct = (size of must set, size of returned set) classes",
+		"rule":                "population: 2 plain wallets and 1 distributed wallet with regex-significant account names; 7 permission tables incl. per-account, deny-first and case-differing entries; every path list of length <= 2 (<= 3 in thorough, one third of the triples) over 18 path forms (wallet only, short-before-long alternation, lazy quantifier, trailing slash, literal, regex, alternation, anchored, unknown, empty, leading slash, invalid regex, wrong case); 3 clients; before creating, after creating, and after creating a second time a plain account through generation and a distributed account through import+AddAccount (the DKG commit path), every listing repeated in each of the three phases; through the real gRPC lister handler; oracle: returned set is a subset of (requested wallets and permitted), a superset of (permitted and whole-matching a requested path), names and keys equal the store's; distinct = (size of must set, size of returned set) classes",
 		"samples":             samples.List(),
 		"exhaustive":          true,
 		"cells":               cells,
